@@ -110,6 +110,13 @@ CHECKS["C16"] = dict(
    note="Trusted: ref/astmodel, whose naming conventions are calibrated on the pinned tree (the statement fixes what must be present, not the spelling of token types).",
    design="4/C16")
 
+CHECKS["C13"] = dict(
+   category="exploration", engine="B small-scope enumeration x full product of spelling dimensions (metamorphic)",
+   technique="exhaustive product of 324 schema spellings + notes + rule permutations over generated accepted and rejected schemas; document re-spellings x property permutations x escape spellings; reference-free equality of verdicts and ASTs",
+   text="Accepted and rejected schemas (rule slots x contexts x corruptions, construct families, rule sets on 10 node kinds, or rule-sets with every nested rule name) are rendered in the full product of line end x indentation x user comments x annotation form x quoted/bare rule names x trailing comma, with added notes and in every rule order: Check's verdict, the AST with comments blanked and the verdict of 22 probe documents plus the example must equal the canonical spelling's. Probe documents are re-spelled (4 whitespace layouts x all property orders x plain / \\uXXXX / \\/ string spellings): the verdict must not change under any schema.",
+   note="Reference-free. Not generated: comments inside rule objects, blanks inside empty brackets.",
+   design="4/C13")
+
 NOT_YET = {
 }
 
